@@ -164,6 +164,12 @@ func ctlScenario(p map[string]any) *Scenario {
 	}
 	sc.Check = func(x *X, e *End) []Violation {
 		var out []Violation
+		for _, o := range x.Log {
+			if o.Kind == "note" && o.What == "inheritable-descriptor" {
+				out = append(out, Violation{Property: "C13", Signature: "the notification descriptor is inheritable by child processes (not close-on-exec), so Close does not release the instance while a child lives", Detail: o.Arg})
+				break
+			}
+		}
 		closeReturned := false
 		for _, o := range x.Log {
 			if o.Kind == "ret" && o.What == "Close" {
